@@ -366,11 +366,25 @@ def run_val(ctx, case):
         P.add("get %%0 i:%d" % bad_index(case["idx"], cnt), expect_exc(IDX))
         P.add("len %0", expect_ok(str(cnt)))
         P.add("fwd %%0 %d" % (2 * cnt + 4), expect_ok("[%s]" % ",".join("i%d" % v for v in range_items(0, n, step))))
+        # the rejected get must not disturb a walk that is in progress (the cursor is part of the object)
+        items = range_items(0, n, step)
+        P.add("iter %0 init %5", expect_ok("i%d" % items[0] if items else "term"))
+        for j in range(1, min(len(items), 4) + 1):
+            P.add("get %%0 i:%d" % bad_index(IDXKINDS[(j + n) % len(IDXKINDS)], cnt), expect_exc(IDX))
+            P.add("iter %0 next %5 %5", expect_ok("i%d" % items[j] if j < len(items) else "term"))
+            if j >= len(items):
+                break
     elif f == "slice-get-idx":
         P.add("new %%1 heap t:Array t:Int %s" % " ".join("i:%d" % i for i in range(n)))
         P.add("new %0 heap t:Slice %1")
         P.add("get %%0 i:%d" % bad_index(case["idx"], n), expect_exc(IDX))
         P.add("fwd %%0 %d" % (2 * n + 4), expect_ok("[%s]" % ",".join("i%d" % v for v in range(n))))
+        P.add("iter %0 init %5", expect_ok("i0" if n else "term"))
+        for j in range(1, min(n, 4) + 1):
+            P.add("get %%0 i:%d" % bad_index(IDXKINDS[(j + n) % len(IDXKINDS)], n), expect_exc(IDX))
+            P.add("iter %0 next %5 %5", expect_ok("i%d" % j if j < n else "term"))
+            if j >= n:
+                break
     elif f in ("int-len", "int-push", "int-cstr"):
         P.add("new %%0 heap t:Int i:%d" % n)
         P.add({"int-len": "len %0", "int-push": "push %0 i:1", "int-cstr": "cstr %0"}[f], expect_exc("ClassError"))
